@@ -155,14 +155,24 @@ func (c *checkCtx) runFuncs(u Unit) {
 			defer func() { <-sem }()
 			fr := &funcResult{Name: u.Pkg + "." + name}
 			res[i] = fr
-			fn := c.prog.Func(u.Pkg, name)
-			if fn == nil {
-				fr.Report = &sym.FuncReport{Func: fr.Name, Error: "function under contract not found in the working tree"}
-				return
-			}
 			x := sym.NewExec(c.prog.Prog, c.prog.Specs)
 			t0 := time.Now()
-			fr.Report = x.Verify(fn)
+			if strings.HasPrefix(name, "lemma:") {
+				path := load.ModulePath + "/" + u.Pkg
+				db := c.prog.Specs[path]
+				if db == nil || db.Funcs[name] == nil || c.prog.Pkgs[path] == nil {
+					fr.Report = &sym.FuncReport{Func: fr.Name, Error: "lemma not found in the contract files"}
+					return
+				}
+				fr.Report = x.VerifyLemma(c.prog.Pkgs[path], db.Funcs[name])
+			} else {
+				fn := c.prog.Func(u.Pkg, name)
+				if fn == nil {
+					fr.Report = &sym.FuncReport{Func: fr.Name, Error: "function under contract not found in the working tree"}
+					return
+				}
+				fr.Report = x.Verify(fn)
+			}
 			fr.Closures = fr.Report.Closures
 			fr.GenSecs = time.Since(t0).Seconds()
 			var ps []*sym.Prepared
